@@ -7,6 +7,11 @@ CONSTANTS
   NestedOrder = "decl"
   FileOrder = "input"
   ItemOrder = "id"
+  Stem <- MCStem
+  NameScope = "module"
 INVARIANT OutputIsFunctionOfInput
+INVARIANT SplitOutputIsFunctionOfInput
+INVARIANT SplitNamesDistinct
+INVARIANT SplitIsPartition
 PROPERTY Terminates
 CHECK_DEADLOCK FALSE
